@@ -16,11 +16,29 @@ import (
 // stripNot peels boolean negations; pol is flipped for each.
 func stripNot(v ssa.Value, pol bool) (ssa.Value, bool) {
 	for {
-		u, ok := v.(*ssa.UnOp)
-		if !ok || u.Op != token.NOT {
-			return v, pol
+		if u, ok := v.(*ssa.UnOp); ok && u.Op == token.NOT {
+			v, pol = u.X, !pol
+			continue
 		}
-		v, pol = u.X, !pol
+		// `x == true`, `x != false`, … (e.g. from `switch x { case true: }`)
+		if b, ok := v.(*ssa.BinOp); ok && (b.Op == token.EQL || b.Op == token.NEQ) {
+			var other ssa.Value
+			var cv bool
+			if c, ok := b.Y.(*ssa.Const); ok && c.Value != nil && c.Value.Kind() == constant.Bool {
+				other, cv = b.X, constant.BoolVal(c.Value)
+			} else if c, ok := b.X.(*ssa.Const); ok && c.Value != nil && c.Value.Kind() == constant.Bool {
+				other, cv = b.Y, constant.BoolVal(c.Value)
+			}
+			if other != nil {
+				same := (b.Op == token.EQL) == cv // cond true means `other` is true
+				if !same {
+					pol = !pol
+				}
+				v = other
+				continue
+			}
+		}
+		return v, pol
 	}
 }
 
